@@ -288,6 +288,103 @@ def small_scope(ctx, tmpdir, lens, maxes, oracle_only):
     ctx.extra["groupings_enumerated"] = n_all
 
 
+# ---------------------------------------------------------------------------------------------
+# the sending provider: which maximum `send_msg` fragments to
+# ---------------------------------------------------------------------------------------------
+SEND_MAXES = [0, 7, 8, 13, 64, 1024, 16382, 2**32 - 1]
+
+
+def _stub_assoc(is_requestor, req_max, acc_max):
+    """an object with exactly what `DIMSEServiceProvider` reads from its association"""
+    import types
+
+    a = types.SimpleNamespace()
+    a.is_requestor, a.is_acceptor = is_requestor, not is_requestor
+    a.requestor = types.SimpleNamespace(maximum_length=req_max)
+    a.acceptor = types.SimpleNamespace(maximum_length=acc_max)
+    a._handlers = {}
+    sent = []
+    a.dul = types.SimpleNamespace(send_pdu=sent.append)
+    a.dimse_timeout = None
+    return a, sent
+
+
+def real_send(is_requestor, req_max, acc_max, n, file_backed, tmpdir):
+    """real `DIMSEServiceProvider.send_msg` of a C-STORE-RQ with an n-byte data set -> (maximum_pdu_size, PDV-list sizes)"""
+    import os
+    from io import BytesIO
+
+    from pynetdicom import evt
+    from pynetdicom.dimse import DIMSEServiceProvider
+    from pynetdicom.dimse_primitives import C_STORE
+
+    a, sent = _stub_assoc(is_requestor, req_max, acc_max)
+    prov = DIMSEServiceProvider(a)
+    rq = C_STORE()
+    rq.MessageID, rq.Priority = 1, 2
+    rq.AffectedSOPClassUID, rq.AffectedSOPInstanceUID = "1.2.840.10008.5.1.4.1.1.2", "1.2.3"
+    data = bytes((i * 7 + 3) % 256 for i in range(n))
+    path = None
+    if file_backed:
+        path = os.path.join(tmpdir, "send.bin")
+        with open(path, "wb") as f:
+            f.write(b"\x00" * 5 + data)
+        rq._dataset_path = (path, 5)
+    else:
+        rq.DataSet = BytesIO(data)
+    old = evt.trigger
+    evt.trigger = lambda *a_, **k_: None  # EVT_DIMSE_SENT: no handlers on the stub association
+    err = None
+    try:
+        prov.send_msg(rq, 1)
+    except Exception as exc:
+        err = type(exc).__name__
+    finally:
+        evt.trigger = old
+    # a PDV as held by the primitive is [context id, control byte + fragment]; on the wire the item is
+    # 4-byte length + context id + that
+    sizes = [sum(4 + 1 + len(v[1]) for v in p.presentation_data_value_list) for p in sent]
+    payload = b"".join(v[1][1:] for p in sent for v in p.presentation_data_value_list if v[1][0] in (0, 2))
+    return prov.maximum_pdu_size, sizes, err, payload == data
+
+
+def run_send(ctx, tmpdir, oracle_only=False):
+    rng = ctx.rng
+    cases = []
+    for role in (True, False):
+        for rq in SEND_MAXES:
+            for ac in SEND_MAXES:
+                peer = ac if role else rq
+                unit = _unit(peer)
+                for n in ({0, 1, unit, unit + 1, 3 * unit, 3 * unit + 2} if not ctx.quick else {unit + 1, 3 * unit + 2}):
+                    cases.append((role, rq, ac, min(n, 70000), rng.random() < 0.3))
+    if ctx.quick:
+        rng.shuffle(cases)
+        cases = cases[:160]
+    reqs = []
+    for role, rq, ac, n, fb in cases:
+        peer = ac if role else rq
+        legal = peer == 0 or peer >= 7
+        mx, sizes, err, intact = real_send(role, rq, ac, n, fb, tmpdir)
+        c = {"op": "send", "requestor": role, "req_max": rq, "acc_max": ac, "n": n, "file": fb}
+        local = rq if role else ac
+        ctx.case(c, nontrivial=legal and len(sizes) >= 3, kind="send:" + ("local-unlimited" if local == 0 and peer else "peer-unlimited" if peer == 0 else "both-limited"))
+        if legal and peer != 0:
+            over = [sz for sz in sizes if sz > peer]
+            if over:
+                ctx.fail(f"{PREFIX}:send:pdv-list-exceeds-peer-maximum",
+                         f"send_msg as {'requestor' if role else 'acceptor'} (requestor max {rq}, acceptor max {ac}): P-DATA with a PDV list of {max(over)} bytes for a peer whose maximum is {peer}", c)
+        if legal and (err or not intact):
+            ctx.fail(f"{PREFIX}:send:data-lost", f"send_msg raised {err} / data set fragments do not concatenate to the data set", c)
+        reqs.append((c, mx))
+    if oracle_only:
+        return
+    model = ctx.lean([["dimse.peermax", c["requestor"], c["req_max"], c["acc_max"]] for c, _ in reqs])
+    for (c, mx), m in zip(reqs, model):
+        if m != mx:
+            ctx.diff(c, {"maximum_pdu_size": mx}, {"peerMax": m}, "DIMSEServiceProvider.maximum_pdu_size")
+
+
 def run(ctx):
     ctx.rule = (
         "generated: data-set and command-set lengths around k*(max-6), k=0..5 (+-2), max in {0,7,8,13,64,16382,2^32-1} "
@@ -307,6 +404,7 @@ def run(ctx):
     try:
         run_frag(ctx, gen_frag_cases(ctx))
         run_msgs(ctx, gen_msg_cases(ctx), tmpdir)
+        run_send(ctx, tmpdir)
         if ctx.quick:
             small_scope(ctx, tmpdir, range(0, 17), range(7, 13), oracle_only=False)
         else:
@@ -322,6 +420,7 @@ def search(ctx):
     tmpdir = tempfile.mkdtemp(prefix="c15s-")
     try:
         small_scope(ctx, tmpdir, range(0, 41), list(range(7, 25)) + [0], oracle_only=True)
+        run_send(ctx, tmpdir, oracle_only=True)
     finally:
         shutil.rmtree(tmpdir, ignore_errors=True)
 
@@ -342,6 +441,15 @@ def replay(ctx, case):
         n = c["max"] - 6
         bad = b"".join(fr) != data or (c["max"] and (any(len(f) > n for f in fr) or len(fr) != dc.ceil_div(len(data), n)))
         return 1 if bad else 0
+    if c["op"] == "send":
+        tmpdir = tempfile.mkdtemp(prefix="c15r-")
+        try:
+            mx, sizes, err, intact = real_send(c["requestor"], c["req_max"], c["acc_max"], c["n"], c["file"], tmpdir)
+        finally:
+            shutil.rmtree(tmpdir, ignore_errors=True)
+        peer = c["acc_max"] if c["requestor"] else c["req_max"]
+        print("maximum_pdu_size:", mx, "peer's maximum:", peer, "PDV-list sizes:", sizes[:40], "exception:", err, "intact:", intact)
+        return 1 if (peer and any(sz > peer for sz in sizes)) or err or not intact else 0
     if c["op"] == "adv":
         print(dc.real_decode([[(a, k, bytes.fromhex(p[1:])) for a, k, p in g] for g in c["groups"]])[0])
         return 0
